@@ -94,6 +94,18 @@ def gen_random(rng, count):
     return cases
 
 
+def gen_contract(rng, count):
+    """contract-violating stream (Pre false): the callback_await callback throws on its first invocation"""
+    cases = []
+    for i in range(count):
+        header = "cb cbawait %s %s" % (rng.choice(TYPES), rng.choice(["heap", "stor"]))
+        mode, body = timing_bodies(rng, header)
+        body.insert(1, "cbthrow")
+        n = sum(1 for l in body if l.split()[0] in ("g", "r", "d"))
+        cases.append(make_case(header, body, random_sched(rng, n, rng.randint(0, 7 * n))))
+    return cases
+
+
 def gen_sequential():
     """the single-thread timings of every adapter x outcome: already resolved (factory resolved its promise / factory
     returned a resolved future) and resolved later on the registering thread; plus destruction by the controller"""
@@ -145,11 +157,13 @@ def parse(case, out):
             "to": hdr[7] if len(hdr) > 7 else None, "behav": hdr[8] if len(hdr) > 8 else None,
             "threads": [l.split() for l in case["lines"][1:] if l.split()[0] in ("g", "r", "d")],
             "pre": None, "imm": None, "cb": [], "conv": [], "events": [], "rets": {}, "outer": None, "final": None,
-            "deadlock": False, "crash": False, "assert": None, "ops": []}
+            "deadlock": False, "crash": False, "assert": None, "ops": [], "cbthrow": False}
     for l in case["lines"][1:]:
         w = l.split()
         if w[0] in ("pre", "imm"):
             info[w[0]] = w[1:]
+        elif w[0] == "cbthrow":
+            info["cbthrow"] = True
     for l in out:
         w = l.split()
         if not w:
@@ -216,9 +230,10 @@ class CallbackSuite(Suite):
 
     def gen_cases(self, rng, tier):
         if tier == "quick":
-            return gen_sequential() + gen_exhaustive(CORE, 7) + gen_exhaustive(CORE[:8], 6, with_dtor=True) + gen_random(rng, 1500)
+            return (gen_sequential() + gen_exhaustive(CORE, 7) + gen_exhaustive(CORE[:8], 6, with_dtor=True)
+                    + gen_random(rng, 1500) + gen_contract(rng, 60))
         return (gen_sequential() + gen_exhaustive(HEADERS, 8) + gen_exhaustive(HEADERS, 7, with_dtor=True)
-                + gen_exhaustive3(rng, HEADERS, 8, 10) + gen_random(rng, 25000))
+                + gen_exhaustive3(rng, HEADERS, 8, 10) + gen_random(rng, 25000) + gen_contract(rng, 600))
 
     def distinct_key(self, case, out):
         return case["lines"][0].split(None, 2)[2] + "|" + "|".join(case["lines"][1:-2]) + "|" + "|".join(l for l in out if l.startswith("s "))
@@ -266,7 +281,8 @@ class CallbackSuite(Suite):
                         (n for n, x in enumerate(o) if x.startswith("s ")), default=-1) else ("registrar" if last == "0" else "other")
                     break
             completer[who] = completer.get(who, 0) + 1
-        return {"adapters": adapters, "timing": timing, "source_outcome": outcomes, "allocator": alloc,
+        return {"contract_violating_cases(callback throws)": sum(1 for c in cases if "cbthrow" in c["lines"]),
+                "adapters": adapters, "timing": timing, "source_outcome": outcomes, "allocator": alloc,
                 "registration_refused_by_cas": refused, "ready_at_await_ready": ready_first, "parked_then_resumed": parked,
                 "completion_run_by": completer, "context_switches_total": switches}
 
@@ -288,7 +304,12 @@ class CallbackSuite(Suite):
             return []          # two successful invocations: C01's subject, not an adapter failure
         exp = show(so, T)
         # --- exactly once, with the operation's outcome
-        if ad in ("cbawait", "cbref", "mkprom", "callfn"):
+        if i["cbthrow"]:
+            # outside the contract (Pre: callbacks do not throw): callback_await_coro calls a throwing callback again from its
+            # catch block; the statement only constrains the helper block here
+            if not i["cb"] or i["cb"][0] != exp:
+                msgs.append("outcome: callback saw %s first, the operation's outcome is %s" % (i["cb"][:1], exp))
+        elif ad in ("cbawait", "cbref", "mkprom", "callfn"):
             if len(i["cb"]) != 1:
                 msgs.append("once: callback ran %d times for one awaited operation" % len(i["cb"]))
             for o in i["cb"]:
